@@ -14,10 +14,14 @@ ASSUMPTIONS = [
     "rank-two determinant identity, cross-checked on two candidates per state against two directly computed exact "
     "determinants (harness self-check)",
     "tolerance 1e3*eps*kappa*(max|column k of W^-1|*(|y|^4/2 + sum|w_i (W^-1 w)_i|) + max|W^-1 w|^2 + |sigma|) with the exact terms and the harness-built kappa of "
-    "the scaled KKT matrix; states reached through an eigenvalue truncation are skipped",
+    "the scaled KKT matrix; states on whose own set the solver truncates eigenvalues are skipped (states that are "
+    "well-poised again after an ill-conditioned predecessor are judged)",
     "same state space and de-duplication as C12; candidates are the lattice points and the lattice scaled by the size "
     "of the current set, restricted to 4x that size from the base ('within a few radii'), all indices",
 ]
+
+
+_JUDGED = [0]  # number of states the oracle judged in the current replay (non-vacuity of the repaired histories)
 
 
 def exact_inverse(W):
@@ -52,7 +56,9 @@ def exact_sigmas(ref, Winv, y_abs):
 
 def oracle(st, models, info):
     viol = []
-    if st.get("trunc"):
+    # the ratios are a function of the current interpolation set only: what matters is whether the solver truncates
+    # eigenvalues on *this* set, not whether an earlier set of the history was ill-conditioned
+    if e2models.truncates(models.interpolation.xpt):
         return viol
     case = e2models.case_of(st)
     ref = st["ref"]
@@ -61,6 +67,7 @@ def oracle(st, models, info):
     Winv = exact_inverse(W)
     if Winv is None:
         return viol
+    _JUDGED[0] += 1
     kappa = e2models.kappa_of(models.interpolation.xpt)
     # candidates "within a few radii": lattice points and scaled lattice points no further than 4x the size of
     # the current set from the base
@@ -177,6 +184,34 @@ def e1_roots(tier):
     return out
 
 
+def repaired_histories():
+    """Histories that pass through a set on which the solver truncates eigenvalues (one point collapsed onto another
+    up to 2^-40) and come back to a well-poised set: the ratios of the final set must not remember the detour."""
+    out = []
+    for n, npt in ((2, 3), (2, 5), (2, 6), (1, 3)):
+        client = e2models.ModelsClient([(n, npt)], oracle, {1: 99, 2: 99, 3: 99})
+        (key, st), = client.initial()
+        import pickle
+        m = pickle.loads(st["real"])
+        pts = [m.interpolation.point(k).copy() for k in range(npt)]
+        for k in range(npt):
+            for j in range(npt):
+                if j == k:
+                    continue
+                for eps_ in (2.0 ** -40, 2.0 ** -48):
+                    bad = pts[j].copy()
+                    bad[0] += eps_
+                    xpt = np.array([p - m.interpolation.x_base for p in pts]).T.copy()
+                    xpt[:, k] = bad - m.interpolation.x_base
+                    if not e2models.truncates(xpt):
+                        continue
+                    goods = [pts[k], pts[k] * 0.5 + 0.25]
+                    for good in goods:
+                        out.append({"engine": "E2-models", "n": n, "npt": npt, "part": "repaired",
+                                    "hist": [["upd", k, [float(v) for v in bad]], ["upd", k, [float(v) for v in good]]]})
+    return out
+
+
 def e1_oracle(rec, table=None):
     viol = []
     for i, d in enumerate(rec.notes.get("dets", [])):
@@ -217,10 +252,17 @@ def run_case(case):
         from .. import e1prop
         return e1prop.run_case_generic(case, e1_oracle, extra_stats=_e1_stats)
     e2models.EXTRA_COORDS[:] = [2.0 ** -15]
+    if case.get("part") == "repaired":
+        _JUDGED[0] = 0
     v = e2models.replay_history(case["n"], case["npt"], case["hist"], oracle)
     for x in v:
         x["case"] = case
-    return {"viol": v, "stats": {}, "digests": [common.sha(case)]}
+    stats = {}
+    if case.get("part") == "repaired":
+        # the oracle ran on the final (well-poised) set if it got past the truncation test there
+        stats["repaired_histories"] = 1
+        stats["repaired_judged"] = 1 if _JUDGED[0] >= 2 or (_JUDGED[0] >= 1 and not v) else 0
+    return {"viol": v, "stats": stats, "digests": [common.sha(case)]}
 
 
 class CountingClient(e2models.ModelsClient):
@@ -267,10 +309,15 @@ def execute(tier, seed, limit=0):
     rts = alpha.permute(e1_roots(tier), seed)
     if limit:
         rts = rts[:limit]
-    for out in common.run_roots(__import__("mc.props.c14", fromlist=["x"]), rts):
+    rep = repaired_histories()
+    if len(rep) < 20:
+        herr.append("fewer than 20 histories through a truncating set and back")
+    for out in common.run_roots(__import__("mc.props.c14", fromlist=["x"]), rts + rep):
         agg.add(out)
     if not agg.stats.get("real_run_ratio_calls"):
         herr.append("no call of Models.determinants observed in real runs")
+    if agg.stats.get("repaired_judged", 0) < 20:
+        herr.append("fewer than 20 repaired histories were judged on their final set")
     per_state = {n: len(e2models.lattice(n, "full")) for n in (1, 2, 3)}
     cov = {
         "states": int(res["states"]), "transitions": int(res["transitions"]),
